@@ -313,6 +313,18 @@ def _config(ctx, pydrex, case, scratch):
         expected["output"]["paths"] = ochosen["paths"][1]
     else:
         expected["output"]["paths"] = None
+    # TOML tables may come in any order, with comments and blank lines in between
+    blocks, cur = [], []
+    for ln in lines:
+        if ln.startswith("[") and cur:
+            blocks.append(cur)
+            cur = []
+        cur.append(ln)
+    blocks.append(cur)
+    head = [b for b in blocks if not b[0].startswith("[")]
+    tables = [b for b in blocks if b[0].startswith("[")]
+    order = rng.permutation(len(tables))
+    lines = [x for b in head for x in b] + [x for i in order for x in (["", "# table"] + tables[int(i)])]
     text = "\n".join(lines) + "\n"
     path = os.path.join(scratch, "cfg.toml")
     with open(path, "w") as f:
